@@ -277,6 +277,15 @@ ref_compute(const JobSpec &s, const MatJob &mj, RefOut &ro)
         if (s.hash == IMB_AUTH_DOCSIS_CRC32) {
                 // Ethernet frame over DOCSIS: CRC32 (Ethernet FCS) over [h_off, h_off+h_len) is placed right after the
                 // hashed range, then the BPI cipher runs over [c_off, c_off+c_len) (encrypt); reverse order on decrypt.
+                if (s.h_len == 0 && s.c_len) {
+                        // CRC switched off: plain BPI cipher over the cipher range, no tag defined
+                        std::unique_ptr<BlockCipher> bc0 = block_cipher_for(s.cipher, s.key_len, rawc);
+                        ref_docsis(*bc0, enc, iv, src.data() + s.c_off, src.data() + s.c_off, s.c_len);
+                        ro.tag.clear();
+                        ro.dst.assign(src.begin() + s.c_off, src.begin() + s.c_off + s.c_len);
+                        ro.src_post = src;
+                        return true;
+                }
                 if (s.h_len < 14)
                         return false; // below the minimum Ethernet PDU: outside the documented assumptions
                 std::unique_ptr<BlockCipher> bc = block_cipher_for(s.cipher, s.key_len, rawc);
